@@ -143,7 +143,7 @@ Variable c : client.
 Lemma prep_header_seqv a b : seqv a b -> seqv (prep_header c a) (prep_header c b).
 Proof.
   intros H. pose proof H as (Hm & Hq & Hc & Hf & Hqq & Hb & Hg & Hr & Hu & Ha & Hpa & Hpp & Hod & Hms & Hcl & Hh).
-  unfold prep_header. solve_seqv.
+  unfold prep_header. rewrite Ha. destruct (r_attempt b <=? 0)%Z; [solve_seqv|exact H].
 Qed.
 
 Lemma prep_cookie_seqv a b : seqv a b -> seqv (prep_cookie c a) (prep_cookie c b).
@@ -236,7 +236,7 @@ Qed.
 Lemma frame_prepare s : frame (prepare detect c s) = frame s.
 Proof.
   unfold prepare. rewrite frame_prep_body. unfold prep_cookie, prep_header.
-  destruct (nonempty (c_cookies c) && _); reflexivity.
+  destruct (r_attempt s <=? 0)%Z; destruct (nonempty (c_cookies c) && _); reflexivity.
 Qed.
 
 Lemma prepare_attempt s : r_attempt (prepare detect c s) = r_attempt s.
@@ -274,7 +274,7 @@ Proof.
   intros Hg. unfold prepare.
   set (X := prep_cookie c (prep_header c s)).
   assert (HX : r_getbody X <> GBReader).
-  { unfold X, prep_cookie, prep_header. destruct (nonempty (c_cookies c) && _); simp_r; exact Hg. }
+  { unfold X, prep_cookie, prep_header. destruct (r_attempt s <=? 0)%Z; destruct (nonempty (c_cookies c) && _); simp_r; exact Hg. }
   clearbody X. unfold prep_body, prep_body_gen.
   destruct (payload_forbid c (r_method X)); [simp_r; discriminate|]. cbv zeta.
   set (s1 := if nonempty (c_form c) && _ then _ else X).
@@ -336,14 +336,17 @@ Proof.
   - rewrite E2, hfirst_hset_same in En. discriminate En.
 Qed.
 
-(* the header map the first pass leaves: the merged map, possibly with Content-Type set *)
+(* the header map the first pass of an execution leaves: the merged map, possibly with
+   Content-Type set *)
 Lemma prepare_headers_shape s :
+  (r_attempt s <= 0)%Z ->
   let H0 := merge_headers (c_headers c) (r_headers s) in
   r_headers (prepare detect c s) = H0 \/ exists x, r_headers (prepare detect c s) = hset content_type [x] H0.
 Proof.
-  cbv zeta. unfold prepare.
+  intros Ha. cbv zeta. unfold prepare.
   assert (HX : r_headers (prep_cookie c (prep_header c s)) = merge_headers (c_headers c) (r_headers s)).
-  { unfold prep_cookie, prep_header. destruct (nonempty (c_cookies c) && _); reflexivity. }
+  { unfold prep_cookie, prep_header. replace (r_attempt s <=? 0)%Z with true by lia.
+    destruct (nonempty (c_cookies c) && _); reflexivity. }
   destruct (prep_body_headers_shape (prep_cookie c (prep_header c s))) as [E|[x E]]; rewrite E, HX.
   - left. reflexivity.
   - right. exists x. reflexivity.
@@ -539,11 +542,7 @@ Proof.
   intros Hb.
   set (s1 := set_attempt (prepare detect c s) b).
   assert (Hh : seqv (prep_header c s1) s1).
-  { unfold prep_header, s1. unfold seqv. simp_r.
-    repeat (split; [reflexivity|]).
-    destruct (prepare_headers_shape s) as [E|[x E]]; cbn zeta in E; rewrite E.
-    - apply merge_headers_idem.
-    - apply merge_hset_idem. }
+  { unfold prep_header, s1. cbn [set_attempt r_attempt]. replace (b <=? 0)%Z with false by lia. apply seqv_refl. }
   assert (Hc : forall t, (1 <= r_attempt t)%Z -> prep_cookie c t = t).
   { intros t Ht. unfold prep_cookie. assert (E : (r_attempt t <=? 0)%Z = false) by lia.
     rewrite E, andb_false_r. reflexivity. }
